@@ -10,7 +10,7 @@ configurations (constants overridden per tier below):
                 variable records unbounded history)
   SP_typed.cfg  typed and untyped objects mixed, three slots, histories bounded by MaxSteps
   SP_grow.cfg   two objects, many handles, operations biased to the capacity boundaries
-                3 -> heap(6) -> 12 -> 24 -> 48 (AddFill = fill exactly to capacity, AddHandle = one more)
+                3 -> heap(6) -> 12 -> 24 -> 48 (AddTo = fill up to a boundary, AddHandle = the add() that allocates)
   SP_deep.cfg   two objects, up to 52 handles: the 24 -> 48 and 48 -> 96 doublings (thorough)
   SP_sim.cfg    tlc -simulate: random behaviours of up to 60 operations, 3 objects, 40 handles (no replay)
 plus TLC-only runs of SP_all.cfg with typed objects / one more handle.
@@ -35,15 +35,15 @@ def proj(st):
 
 
 def hdr(k, st0):
-    n = len(st0["resumed"]) if not isinstance(st0["resumed"], dict) else len(st0["resumed"])
-    return {"mode": st0["mode"], "maxh": n, "maxobj": len(st0["sp"]), "alt": k % 2}
+    # alt: Clear is executed through clear() (0) or through suspend_now() (1)
+    return {"mode": st0["mode"], "maxh": len(st0["resumed"]), "maxobj": len(st0["sp"]), "alt": k % 2}
 
 
 def fast_cover_paths(g, rng, max_paths=None, full=True, max_len=400, want_terminal=True):
     """Edge cover by root-to-terminal paths, linear in the size of the result (vlib.cover_paths runs a
     whole-graph BFS whenever a walk gets stuck, which is quadratic on wide, shallow graphs).
     Same contract as vlib.cover_paths: returns (paths, covered, total), path = (init, [(label, dst)...])."""
-    out = {n: [(l, d) for (l, d) in es if d != n] for n, es in g.edges.items()}
+    out = {n: list(es) for n, es in g.edges.items()}     # self loops (no-op operations) are replayed too
     total = sum(len(v) for v in out.values())
     # shortest way from an initial state to every node
     parent = {}
@@ -64,9 +64,10 @@ def fast_cover_paths(g, rng, max_paths=None, full=True, max_len=400, want_termin
     rev = {}
     for n, es in out.items():
         for (l, d) in es:
-            rev.setdefault(d, []).append(n)
+            if d != n:
+                rev.setdefault(d, []).append(n)
     dist = {}
-    dq = deque(n for n in out if not out[n])
+    dq = deque(n for n in out if all(d == n for (l, d) in out[n]))
     for n in dq:
         dist[n] = 0
     while dq:
@@ -157,8 +158,9 @@ def fast_cover_paths(g, rng, max_paths=None, full=True, max_len=400, want_termin
                     if i is None:
                         break
             if want_terminal:
-                while out[cur] and cur in dist and len(steps) < max_len + 200:
-                    k = min(range(len(out[cur])), key=lambda j: dist.get(out[cur][j][1], 1 << 30))
+                while dist.get(cur, 0) > 0 and len(steps) < max_len + 200:
+                    k = min((j for j in range(len(out[cur])) if out[cur][j][1] != cur),
+                            key=lambda j: dist.get(out[cur][j][1], 1 << 30))
                     take(cur, k)
                     steps.append(out[cur][k])
                     cur = out[cur][k][1]
@@ -200,7 +202,7 @@ def run(ctx):
     if not q:
         extra.append(("SP_all.cfg", "all6", {"MaxObj": 2, "MaxH": 6}, {}))
         extra.append(("SP_all.cfg", "all_typed5", {"MaxObj": 2, "MaxH": 5, "Typed": "TRUE"}, {}))
-    extra.append(("SP_sim.cfg", "sim", None, {"simulate": "num=%d" % (2000 if q else 50000), "depth": 62, "seed": ctx.seed}))
+    extra.append(("SP_sim.cfg", "sim", None, {"simulate": "num=%d" % (2000 if q else 20000), "depth": 62, "seed": ctx.seed}))
     for (cfg, tag, consts, kw) in extra:
         path = sd + cfg
         if consts:
